@@ -69,6 +69,7 @@ class C03(Prop):
         cfg["restart"] = r.random() < 0.4
         cfg["third"] = cfg["source"] == "hier" and not cfg["restart"] and r.random() < 0.5
         cfg["policy_start"] = r.choice(["DEFAULT", "DEFAULT", "EDIF"])
+        cfg["prior_rejected"] = r.random() < 0.2
         return cfg
 
     def make_gen(self, w, rng, cfg):
@@ -86,6 +87,12 @@ class C03(Prop):
         ev.append({"op": "compose", "on": net, "path": "sim://a.edf", "tag": "first"})
         if cfg["restart"]:
             ev.append({"op": "restart"})
+        if cfg.get("prior_rejected"):
+            # an earlier read, in the same process, of a cut-short copy of the same file: refused, and without
+            # influence on the read under test
+            ev.append({"op": "fs_damage", "src": "sim://a.edf", "dst": "sim://bad.edf", "prior": True,
+                       "frac": rng.uniform(0.2, 0.97), "how": rng.choice(["cut", "cut", "garbage"])})
+            ev.append({"op": "parse", "path": "sim://bad.edf", "prior": True})
         ev.append({"op": "parse", "path": "sim://a.edf", "tag": "reread"})
         p1 = len(ev) - 1
         ev.append({"op": "compose", "on": "e%d.0" % p1, "path": "sim://b.edf", "tag": "second"})
@@ -156,6 +163,10 @@ class C03(Prop):
     def after(self, w, ev, outcome, pre):
         op = ev["op"]
         tag = ev.get("tag")
+        if ev.get("prior"):
+            if op == "parse":
+                w.count("fault.prior_read_" + ("refused" if outcome != "ok" else "accepted"))
+            return
         if not self.composed and op not in ("compose", "parse") and outcome != "ok":
             # an event of the build phase was refused (e.g. two generated identifiers collide): the netlist is
             # not the one the generator promised, so nothing is claimed about it
